@@ -67,6 +67,9 @@ def systematic():
                'PUSH("a") ~ ((PUSH("b") ~ (POP ~ PEEK) ~ "x") | (ANY ~ ANY ~ POP))', 'PUSH("a") ~ (PUSH("b") ~ (POP ~ POP)? ~ "!")? ~ POP_ALL',
                'PUSH("a") ~ PUSH("b") ~ ((PUSH("a") ~ (POP ~ POP ~ POP) ~ "!") | PEEK_ALL)', 'PUSH(ANY) ~ (!(PUSH(ANY) ~ (POP ~ POP)) ~ ANY ~ POP | ANY)',
                'PUSH("a") ~ ((b ~ "!") | ("bba" ~ POP))']
+    # a failing sequence that consumed nothing and left the stack depth as it was, but replaced the stack's contents
+    stackg += ['PUSH("a") ~ (DROP ~ PUSH("") ~ "!")? ~ PEEK ~ EOI', 'PUSH(ANY) ~ (DROP ~ PUSH(&ANY) ~ "!" | PEEK) ~ POP?',
+               'PUSH("a") ~ PUSH("b") ~ (DROP ~ DROP ~ PUSH("") ~ PUSH("") ~ "!")* ~ PEEK_ALL']
     # a stack-slice match that fails part-way, as the direct operand of | ? *
     stackg += ['PUSH("a") ~ PUSH("b") ~ (PEEK_ALL | "b" ~ "c") ~ EOI', 'PUSH("ab") ~ PUSH("b") ~ (PEEK[0..2] | ANY*) ~ EOI', 'PUSH("a") ~ PUSH("b") ~ PEEK_ALL? ~ ANY*',
                'PUSH("a") ~ PUSH("b") ~ PEEK[..]* ~ ANY ~ EOI', 'PUSH(ANY) ~ PUSH(ANY) ~ (POP_ALL | ANY) ~ ANY?']
@@ -79,6 +82,12 @@ def systematic():
         for bbody in ['"a" ~ "b"', '"a" | "b"', '^"a"', '"a"+', "'a'..'b'", '"a" ~ "b" | "b"', '"ab"']:
             out.append(grammar_text('(!b ~ ANY)* ~ b?', "@", bbody, bmod, '_{ " " }'))
             out.append(grammar_text('(!(b | "c") ~ ANY)*', "@", bbody, bmod, '_{ " " }'))
+            # the rule reference in every position of the negated choice (the skipper inlines head and tail references at different sites)
+            out.append(grammar_text('(!("c" | b) ~ ANY)*', "@", bbody, bmod, '_{ " " }'))
+            if bmod in ("", "_"):
+                out.append(grammar_text('(!("c" | b | "d") ~ ANY)* ~ ANY?', "@", bbody, bmod))
+                out.append(grammar_text('(!("c" | "d" | b) ~ ANY)*', "$", bbody, bmod))
+                out.append(grammar_text('(!(b | "c" | b) ~ ANY)*', "@", bbody, bmod))
     # case-insensitive literals with characters that are not letters (only ASCII letters fold)
     for s_ in ['^"a-b"', '^"_" ~ ^"[x]"', '^"1@" | ^"Z"', '^"é" ~ ANY?']:
         out.append(grammar_text(s_)); out.append(grammar_text(s_, "@", '^"B"', ""))
@@ -104,6 +113,13 @@ def systematic():
         out.append(grammar_text(s)); out.append(grammar_text(s, "", '"b"', "", '_{ " " }'))
     out.append(grammar_text('PUSH("a") ~ ("x" | b | "c") ~ PEEK_ALL', "", 'POP', "_"))
     out.append(grammar_text('PUSH(ANY) ~ PUSH(ANY) ~ b*', "", 'DROP', ""))
+    # WHITESPACE / COMMENT named explicitly in a rule body (and entered as an ordinary rule call), with a structured body: a sequence or
+    # repetition inside it (implicit skipping must stay off in there) or a call to a non-silent rule (whose pair shows or not)
+    for m in MODS:
+        out.append(grammar_text('"a" ~ COMMENT ~ "b"', m, '"b"', "", '_{ " " }', '{ "#" ~ "c"* ~ "#" }'))
+        out.append(grammar_text('"a" ~ WHITESPACE+ ~ b', m, '"b"', "", '{ " " ~ b? ~ "," }', None))
+        out.append(grammar_text('(COMMENT | b)*', m, '"b"', "", '_{ " " }', '_{ "#" ~ (!"c" ~ ANY)* ~ b }'))
+        out.append(grammar_text('"a" ~ (WHITESPACE ~ COMMENT)? ~ ANY', m, '"c"', "", '@{ "-" ~ "-" }', '${ "#" ~ b ~ b }'))
     # a rule of every type called from a rule of every type, where the enclosing sequence fails after the inner rule matched and the
     # failure is absorbed by a choice / repetition (tokens of the abandoned attempt must go; atomicity must be put back)
     for m in MODS:
